@@ -16,12 +16,16 @@ fn main() {
 		mc_common::par::set_quiet(false);
 		let code = match prop.as_str() {
 			"C01" => checks::c01::replay(&name, &actions),
+			"C05" => checks::c05::replay(&name, &actions),
+			"C09" => checks::c09::replay(&name, &actions),
 			_ => cli::die("replay: unknown property"),
 		};
 		std::process::exit(code);
 	}
 	let code = match args.property.as_str() {
 		"C01" => checks::c01::run(&args),
+		"C05" => checks::c05::run(&args),
+		"C09" => checks::c09::run(&args),
 		p => cli::die(&format!("property {} is not served by mc-world", p)),
 	};
 	std::process::exit(code);
